@@ -653,7 +653,14 @@ def _atom_len(a):
     if k == 'rep':
         return a[2]
     if k == 'istr':
-        return atom(DECLEN(Z(a[1])))
+        n = Z(a[1])
+        d = DECLEN(n)
+        if CUR is not None:
+            # str(n) has at least one character; exact for 0 <= n < 1000
+            CUR.axiom_once(('declen', n.get_id()), lambda: [
+                d >= 1, z3.Implies(z3.And(n >= 0, n <= 9), d == 1), z3.Implies(z3.And(n >= 10, n <= 99), d == 2),
+                z3.Implies(z3.And(n >= 100, n <= 999), d == 3), z3.Implies(n >= 1000, d >= 4)])
+        return atom(d)
     raise AssertionError(a)
 
 
@@ -913,6 +920,49 @@ def _atom_eq(a, b):
     return None
 
 
+def _fields(atoms):
+    """split a rope of literal / str(int) atoms at ';' into fields (lists of atoms); str(int) contains no ';'"""
+    fields = [[]]
+    for a in atoms:
+        if a[0] == 'lit':
+            parts = a[1].split(';')
+            for n, p in enumerate(parts):
+                if n:
+                    fields.append([])
+                if p:
+                    fields[-1].append(('lit', p))
+        else:
+            fields[-1].append(a)
+    return fields
+
+
+def _eq_fields(A, B):
+    """exact equality of two ropes made of literals and str(int) atoms, decided field by field; None if unknown"""
+    fa, fb = _fields(A), _fields(B)
+    if len(fa) != len(fb):
+        return False
+    conds = []
+    for x, y in zip(fa, fb):
+        if len(x) == 1 and len(y) == 1 and x[0][0] == 'istr' and y[0][0] == 'istr':
+            conds.append(i_cmp('==', x[0][1], y[0][1]))
+            continue
+        if all(t[0] == 'lit' for t in x) and all(t[0] == 'lit' for t in y):
+            if ''.join(t[1] for t in x) != ''.join(t[1] for t in y):
+                return False
+            continue
+        if len(x) == 1 and x[0][0] == 'istr' and all(t[0] == 'lit' for t in y):
+            x, y = y, x
+        if len(y) == 1 and y[0][0] == 'istr' and all(t[0] == 'lit' for t in x):
+            lit = ''.join(t[1] for t in x)
+            body = lit[1:] if lit.startswith('-') else lit
+            if body.isdigit() and body.isascii() and (body == '0' or not body.startswith('0')) and lit != '-0':
+                conds.append(i_cmp('==', y[0][1], int(lit)))
+                continue
+            return False  # str(int) is a canonical decimal numeral
+        return None
+    return b_and(*conds)
+
+
 def s_eq(a, b, _depth=0):
     """a == b for strings.  Returns bool | z3 Bool | Approx."""
     if isinstance(a, str) and isinstance(b, str):
@@ -940,6 +990,10 @@ def s_eq(a, b, _depth=0):
             return i_cmp('==', ta[1].tid, tb[1].tid)
     if len(A) == 1 and len(B) == 1 and A[0][0] == 'istr' and B[0][0] == 'istr':
         return i_cmp('==', A[0][1], B[0][1])  # str() of ints is injective
+    if all(x[0] in ('lit', 'istr') for x in A) and all(x[0] in ('lit', 'istr') for x in B):
+        r = _eq_fields(A, B)
+        if r is not None:
+            return r
     # same atom structure, atom-wise exact
     if len(A) == len(B):
         conds = []
